@@ -583,3 +583,10 @@ def run(chk):
             # it was matched (C16's key rule), not by a normalised form of it
             from . import c16
             c16.cache_key(chk, prog)
+            # ... and "returned intact": what is stored under a key is the value given for that key — Cache::set removes the old entry of the
+            # key and appends the new one (C16's replace / stored rules); an entry refreshed at a remembered position can, after an eviction
+            # in between, be another URI's entry, which then serves this file's bytes
+            from . import shared as _shf
+            rf = _shf.RuleFilter(chk, {"R3.replace": "R6.cache_replace", "R3.stored": "R6.cache_stored"})
+            c16.run(rf)
+            chk.floor("C16 replace / stored obligations borrowed for the served bytes", rf.forwarded, 2)
